@@ -3,8 +3,8 @@
 import json, os, shutil, sys
 P, I, caught = sys.argv[1], sys.argv[2], sys.argv[3]
 note = sys.argv[4] if len(sys.argv) > 4 else ""
-src = f"/tmp/seed-{P}/_seed"
-dst = os.path.join(os.path.dirname(os.path.dirname(os.path.abspath(__file__))), "seeded", f"{P}-{I}")
+src = os.environ.get("SEED_PREFIX", "/tmp/seed2-") + f"{P}/_seed"
+dst = os.path.join(os.path.dirname(os.path.dirname(os.path.abspath(__file__))), "seeded", f"{P}-{int(I) + int(os.environ.get('SEED_OFFSET', '2'))}")
 os.makedirs(dst, exist_ok=True)
 shutil.copy(f"{src}/change{I}.diff", f"{dst}/patch.diff")
 shutil.copy(f"{src}/demo{I}.py", f"{dst}/demo.py")
